@@ -411,13 +411,17 @@ func (c *Client) recv(keepaliveQuit chan<- struct{}, keepaliveDone <-chan struct
 	// The keepalive is stopped before the end of the session is reported: event handlers
 	// (a StreamManager) reconnect from within the callback, and the transport is shared
 	// with the next connection. A ping that is already under way is waited for, so that
-	// it cannot hit (or close) the connection of the next session.
+	// it cannot hit (or close) the connection of the next session - but not for ever: a
+	// peer that has stopped reading can keep a write blocked indefinitely.
 	keepaliveStopped := false
 	stopKeepalive := func() {
 		if !keepaliveStopped {
 			keepaliveStopped = true
 			close(keepaliveQuit)
-			<-keepaliveDone
+			select {
+			case <-keepaliveDone:
+			case <-time.After(time.Duration(c.config.ConnectTimeout) * time.Second):
+			}
 		}
 	}
 	defer stopKeepalive()
